@@ -1,0 +1,65 @@
+//go:build verif
+
+package hub
+
+import (
+	"github.com/enbility/ship-go/api"
+	"github.com/enbility/ship-go/model"
+)
+
+// Hooks for runtime monitors. Only compiled with the "verif" build tag.
+
+// VerifSetDialBackoff replaces the connection initiation delay table
+// (time constants only; values are seconds as in the original table).
+// Returns the previous table so that it can be restored.
+func VerifSetDialBackoff(ranges [][2]int) [][2]int {
+	old := make([][2]int, 0, len(connectionInitiationDelayTimeRanges))
+	for _, r := range connectionInitiationDelayTimeRanges {
+		old = append(old, [2]int{r.min, r.max})
+	}
+
+	newRanges := make([]connectionInitiationDelayTimeRange, 0, len(ranges))
+	for _, r := range ranges {
+		newRanges = append(newRanges, connectionInitiationDelayTimeRange{min: r[0], max: r[1]})
+	}
+	connectionInitiationDelayTimeRanges = newRanges
+
+	return old
+}
+
+// One entry of the hub's connection registry
+type VerifRegistryEntry struct {
+	Connection api.ShipConnectionInterface
+	State      model.ShipMessageExchangeState
+	Err        error
+	Closed     bool
+}
+
+// VerifRegistry returns a read-only copy of the connection registry
+func (h *Hub) VerifRegistry() map[string]VerifRegistryEntry {
+	h.muxCon.Lock()
+	conns := make(map[string]api.ShipConnectionInterface, len(h.connections))
+	for k, v := range h.connections {
+		conns[k] = v
+	}
+	h.muxCon.Unlock()
+
+	result := make(map[string]VerifRegistryEntry, len(conns))
+	for k, v := range conns {
+		state, err := v.ShipHandshakeState()
+		closed := false
+		if dh := v.DataHandler(); dh != nil {
+			closed, _ = dh.IsDataConnectionClosed()
+		}
+		result[k] = VerifRegistryEntry{Connection: v, State: state, Err: err, Closed: closed}
+	}
+
+	return result
+}
+
+// VerifAttempt returns the dial attempt bookkeeping for a SKI
+func (h *Hub) VerifAttempt(ski string) (counter int, exists bool, running bool) {
+	counter, exists = h.getCurrentConnectionAttemptCounter(ski)
+	running = h.isConnectionAttemptRunning(ski)
+	return
+}
